@@ -22,6 +22,8 @@ PROPERTY = "C16"
 DROP_SUFFIX = 0  # F24: _Line.expand derives the closing line's suffix from the node instead of carrying its own (0: fix 376cec1)
 ARRAY_LITERAL = 0  # F12: the empty form of array is the literal text "array({_object.typecode!r})" (0: fix e5d1b9a)
 
+MEASURE_NO_EXPAND_ALL = 0  # F26: Pretty.__rich_measure__ calls pretty_repr without expand_all (1 = the code as it stands)
+
 ARRAY_LITERAL_TEXT = "array({_object.typecode!r})"
 INDENTS = [4, 4, 1, 2, 0, 8]
 MAX_LENGTHS = [None, None, None, 0, 1, 2, 3, 5]
@@ -82,16 +84,35 @@ def choose_widths(rng, crit, maxw, k, sweep=False):
     out.append(rng.randint(1, maxw))
     if rng.random() < 0.2:
         out.append(rng.choice([0, 1, 2, 80, maxw]))
-    if rng.random() < 0.01:
-        out.append(-rng.randint(1, 5))  # outside the modelled domain: answered `unmodelled`, still evaluated directly
+    if rng.random() < 0.04:
+        out.append(-rng.randint(0, 5))  # max_width <= 0: nothing fits, everything is expanded
     return out
+
+
+NEG_EVERY = 12  # one option set in this many takes an option from outside its documented domain
+
+_CONSOLE = None
+
+
+def _console():
+    global _CONSOLE
+    if _CONSOLE is None:
+        import io
+
+        from rich.console import Console
+
+        _CONSOLE = Console(file=io.StringIO(), width=80, color_system=None, force_terminal=False, legacy_windows=False)
+    return _CONSOLE
 
 
 def eval_value(rec, v, tier_quick, n_cfg, tag, sweep=False):
     """all checks for one value under `n_cfg` option sets x critical widths (`sweep`: all widths within +-2 of
-    every fit threshold)."""
+    every fit threshold).  Options outside their documented domain (negative max_length / max_string /
+    indent_size, max_width <= 0) are compared model-vs-code; the statement is evaluated only inside its domain."""
+    import dataclasses
+
     import lib_pretty as L
-    from rich.pretty import pretty_repr, traverse
+    from rich.pretty import Pretty, pretty_repr, traverse
 
     cell_len = L.table_cell_len  # oracle side: the width table only, none of rich.cells' code
     rng = rec.rng
@@ -99,11 +120,18 @@ def eval_value(rec, v, tier_quick, n_cfg, tag, sweep=False):
     cyc = L.has_cycle(v)
     can_eval = (not cyc) and L.evaluable(v)
     basic = (not cyc) and L.only_basic(v)
+    brk = L.has_line_break(v)
+    empty_key = L.has_empty_key_repr(v)  # outside the statement's domain (no literal has an empty repr)
+    if empty_key:
+        rec.note("value:empty-key-repr(outside-domain)")
     rec.note(f"value:{tag}:{type(v).__name__}")
     if cyc:
         rec.note("value:cyclic")
+    if brk:
+        rec.note("value:leaf-repr-with-line-break")
     heaps = {}
     trees = {}
+    mask = DROP_SUFFIX == 0
     for ci in range(n_cfg):
         ind = rng.choice(INDENTS)
         ea = rng.random() < 0.25
@@ -112,9 +140,21 @@ def eval_value(rec, v, tier_quick, n_cfg, tag, sweep=False):
         else:
             ml = rng.choice(MAX_LENGTHS)
             ms = rng.choice(MAX_STRINGS)
-        if (ml, ms) not in trees:
-            trees[(ml, ms)] = L.ref_tree(v, ml, ms)
-        tree = trees[(ml, ms)]
+            if rng.randrange(NEG_EVERY) == 0:
+                which = rng.randrange(3)
+                if which == 0:
+                    ml = -rng.randint(1, 3)
+                elif which == 1:
+                    ms = -rng.randint(1, 6)
+                else:
+                    ind = -rng.randint(1, 4)
+        in_domain = (ml is None or ml >= 0) and (ms is None or ms >= 0)
+        if not in_domain:
+            rec.note("options:outside-domain:" + ("ml" if (ml is not None and ml < 0) else "ms"))
+        tkey = (ml, ms) if in_domain else (None, None)
+        if tkey not in trees:
+            trees[tkey] = L.ref_tree(v, *tkey)
+        tree = trees[tkey]
         crit = set()
         L.ref_lines(tree, cell_len, 0, ind, True, crit)
         rec.note("depth:%d" % min(_depth(tree), 7))
@@ -126,18 +166,33 @@ def eval_value(rec, v, tier_quick, n_cfg, tag, sweep=False):
             inp = dict(value=_short(v), max_width=w, indent_size=ind, expand_all=ea, max_length=ml, max_string=ms)
             try:
                 out = pretty_repr(v, max_width=w, indent_size=ind, max_length=ml, max_string=ms, expand_all=ea)
+                ans = enc_str(out)
             except RecursionError:
                 rec.check(False, "pretty_repr", inp, "did not terminate (RecursionError)")
                 continue
+            except ValueError:
+                out = None
+                ans = "err:ValueError"
             sample = f"pretty_repr({_short(v, 120)}, max_width={w}, indent_size={ind}, expand_all={ea}, max_length={ml}, max_string={ms})" if rng.random() < 0.02 else None
-            shape = ("multi" if "\n" in out else "one") + (":ea" if ea else "") + (":ml" if ml is not None else "") + (":ms" if ms is not None else "") + (":cyc" if cyc else "")
+            if out is None:
+                shape = "ValueError"
+            else:
+                shape = ("multi" if "\n" in out else "one") + (":ea" if ea else "") + (":ml" if ml is not None else "") + (":ms" if ms is not None else "") + (":cyc" if cyc else "")
+                if w <= 0:
+                    shape += ":w<=0"
             rec.case(
                 "pretty.pretty_repr",
                 [DROP_SUFFIX, ARRAY_LITERAL, heap, root, enc_opt(ml), enc_opt(ms), table, w, ind, enc_bool(ea)],
-                enc_str(out),
+                ans,
                 shape=shape,
                 sample=sample,
             )
+            if out is None or not in_domain or empty_key:
+                if out is None:
+                    # the documented behaviour of a negative max_length is not stated anywhere; what is checked is
+                    # that the error is the one the model predicts (islice's ValueError on a non-empty root)
+                    rec.check(ml is not None and ml < 0 and L.is_container(v) and len(v) > 0, "pretty_repr:ValueError", inp, "ValueError outside the predicted case")
+                continue
             # ---- direct evaluation 1: the reference printer (statement level)
             lines = L.ref_lines(tree, cell_len, w, ind, ea)
             ok, at = L.ref_matches(out, lines, ind)
@@ -163,30 +218,87 @@ def eval_value(rec, v, tier_quick, n_cfg, tag, sweep=False):
                 rec.check(okb, "pretty_repr:eval", inp, why + f"; output {out!r}", finding=finding if not ok else (classify_literal(out)))
             # ---- direct evaluation 3: repr() on one line whenever it fits (basic containers)
             if basic and ml is None and ms is None:
-                r = repr(v)
+                try:
+                    r = repr(v)
+                except Exception:  # noqa: BLE001 - a leaf whose repr raises: list.__repr__ has no fallback, rich has
+                    r = None
+            if basic and ml is None and ms is None and r is not None:
                 if not ea and cell_len(r) <= w:
                     rec.check(out == r, "pretty_repr:repr_when_fits", inp, f"repr() fits in {w} cells but output is {out!r}")
                 elif L.is_container(v) and len(v) > 0:
                     rec.check("\n" in out, "pretty_repr:expand_when_too_wide", inp, f"repr() needs {cell_len(r)} cells (expand_all={ea}) but output is one line {out!r}", finding=classify_literal(out))
-            # ---- direct evaluation 4: indentation
-            ols = out.split("\n")
-            lead = [_leading(s) for s in ols]
-            okI = lead[0] == 0 and all(s.strip(" ") != "" for s in ols)
-            if ind > 0:
-                okI = okI and all(x % ind == 0 for x in lead) and all(b - a <= ind for a, b in zip(lead, lead[1:]))
-            else:
-                okI = okI and all(x == 0 for x in lead)
-            okI = okI and lead[-1] == 0
-            rec.check(okI, "pretty_repr:indent", inp, f"indentation is not a consistent multiple of {ind}: {out!r}")
+            # ---- direct evaluation 4: indentation (when the only line breaks are the layout's)
+            if not brk and out != "":
+                ols = out.split("\n")
+                lead = [_leading(s) for s in ols]
+                okI = lead[0] == 0
+                if ind > 0:
+                    okI = okI and all(x % ind == 0 for x in lead) and all(b - a <= ind for a, b in zip(lead, lead[1:]))
+                else:
+                    okI = okI and all(x == 0 for x in lead)
+                okI = okI and lead[-1] == 0
+                rec.check(okI, "pretty_repr:indent", inp, f"indentation is not a consistent multiple of {ind}: {out!r}")
+        # ---- Pretty.__rich_measure__: correspondence + "render at the reported maximum fits"
+        if ci < 2 or rng.random() < 0.3:
+            W = rng.choice(widths) if rng.random() < 0.7 else rng.randint(1, maxw)
+            p = Pretty(v, indent_size=ind, max_length=ml, max_string=ms, expand_all=ea)
+            inp = dict(value=_short(v), max_width=W, indent_size=ind, expand_all=ea, max_length=ml, max_string=ms)
+            meas = None
+            try:
+                meas = p.__rich_measure__(_console(), W)
+                mans = str(meas.maximum)
+                rec.check(meas.minimum == meas.maximum, "Pretty.__rich_measure__:minmax", inp, f"{meas}")
+            except ValueError:
+                mans = "err:ValueError"
+            except RecursionError:
+                mans = None
+            if mans is not None:
+                rec.case(
+                    "pretty.measure",
+                    [DROP_SUFFIX, ARRAY_LITERAL, MEASURE_NO_EXPAND_ALL, heap, root, enc_opt(ml), enc_opt(ms), table, W, ind, enc_bool(ea)],
+                    mans,
+                    shape=("err" if meas is None else "ok") + (":ea" if ea else ""),
+                )
+            if meas is not None and in_domain and not brk:
+                m = meas.maximum
+                opts = dataclasses.replace(_console().options, max_width=m, min_width=m)
+                text = list(p.__rich_console__(_console(), opts))[-1].plain
+                widest = max(cell_len(l) for l in text.split("\n"))
+                finding = None
+                if widest > m and ea:
+                    full = pretty_repr(v, max_width=W, indent_size=ind, max_length=ml, max_string=ms, expand_all=True)
+                    flat = pretty_repr(v, max_width=W, indent_size=ind, max_length=ml, max_string=ms, expand_all=False)
+                    if max(cell_len(l) for l in flat.split("\n")) == m and max(cell_len(l) for l in full.split("\n")) >= widest:
+                        finding = "pretty-measure-ignores-expand-all"
+                rec.check(
+                    widest <= m,
+                    "Pretty.__rich_measure__:sound",
+                    inp,
+                    f"measured {m} at available width {W}, but rendering at width {m} has a line of {widest} cells: {text!r}",
+                    finding=finding,
+                )
+    # ---- Pretty.__rich_console__ option plumbing (model: prettyConsole)
+    console_case(rec, v, heaps, rng, maxw)
     # ---- traverse: correspondence on the heap + abbreviation counts on the real tree
-    for (ml, ms) in trees:
+    tkeys = list(trees)
+    if rng.randrange(NEG_EVERY) == 0:
+        tkeys.append((-rng.randint(1, 2), rng.choice([None, -1, 2])))
+    for (ml, ms) in tkeys:
+        if ms not in heaps:
+            heaps[ms] = L.enc_heap(v, ms)
         heap, root, table = heaps[ms]
         try:
             node = traverse(v, max_length=ml, max_string=ms)
+            tans = L.enc_node(node, mask_root_last=mask)
         except RecursionError:
             rec.check(False, "traverse", dict(value=_short(v), max_length=ml, max_string=ms), "did not terminate (RecursionError)")
             continue
-        rec.case("pretty.traverse", [ARRAY_LITERAL, heap, root, enc_opt(ml), enc_opt(ms), table], L.enc_node(node), shape=("ml" if ml is not None else "") + ("ms" if ms is not None else "") + ("cyc" if cyc else ""))
+        except ValueError:
+            node = None
+            tans = "err:ValueError"
+        rec.case("pretty.traverse", [DROP_SUFFIX, ARRAY_LITERAL, heap, root, enc_opt(ml), enc_opt(ms), table], tans, shape=("err" if node is None else "") + ("ml" if ml is not None else "") + ("ms" if ms is not None else "") + ("cyc" if cyc else ""))
+        if node is None or (ml is not None and ml < 0) or (ms is not None and ms < 0):
+            continue
         inp = dict(value=_short(v), max_length=ml, max_string=ms)
         if L.is_container(v) and ml is not None and len(v) > 0:
             n = len(v)
@@ -201,12 +313,89 @@ def eval_value(rec, v, tier_quick, n_cfg, tag, sweep=False):
                 want = repr(s[:ms]) + f"+{len(s) - ms}" if len(s) > ms else repr(s)
                 rec.check(got == want, "traverse:max_string", inp, f"string of {len(s)} chars, max_string={ms}: {got!r}, expected {want!r}")
         # the same tree rendered through Node.render directly (pretty_repr accepts a Node)
-        ind = rng.choice(INDENTS)
+        ind = rng.choice(INDENTS + [-2])
         ea = rng.random() < 0.2
         crit = set()
         L.ref_lines(trees[(ml, ms)], cell_len, 0, ind, True, crit)
         for w in choose_widths(rng, crit, maxw, 1):
             rec.case("pretty.render", [DROP_SUFFIX, L.enc_node(node), w, ind, enc_bool(ea)], enc_str(pretty_repr(node, max_width=w, indent_size=ind, expand_all=ea)), shape="from-traverse")
+
+
+JUSTIFY = [None, None, "left", "center", "right", "full", ""]
+OVERFLOW = [None, "crop", "crop", "fold", "ellipsis", "ignore", ""]
+
+
+def _enc_opt_str(x):
+    return "N" if x is None else "S" + enc_str(x)
+
+
+def _enc_opt_bool(x):
+    return "N" if x is None else enc_bool(x)
+
+
+def console_case(rec, v, heaps, rng, maxw):
+    """Pretty.__rich_console__: which text, with which Text attributes, guides and blank line."""
+    import dataclasses
+
+    import lib_pretty as L
+    from rich.highlighter import NullHighlighter
+    from rich.pretty import Pretty
+    from rich.text import Text
+
+    ind = rng.choice(INDENTS)
+    pj, po = rng.choice(JUSTIFY), rng.choice(OVERFLOW)
+    pnw = rng.choice([False, False, True, None])
+    guides = rng.random() < 0.4
+    ea = rng.random() < 0.3
+    margin = rng.choice([0, 0, 1, 3, 12])
+    insert_line = rng.random() < 0.4
+    ml = rng.choice(MAX_LENGTHS)
+    ms = rng.choice(MAX_STRINGS)
+    cwid = rng.randint(1, maxw)
+    cj, co = rng.choice(JUSTIFY[:-1]), rng.choice(OVERFLOW[:-1])
+    cnw = rng.choice([False, True, None])
+    enc = rng.choice(["utf-8", "utf-8", "ascii", "cp1252"])
+    if ms not in heaps:
+        heaps[ms] = L.enc_heap(v, ms)
+    heap, root, table = heaps[ms]
+    p = Pretty(v, NullHighlighter(), indent_size=ind, justify=pj, overflow=po, no_wrap=pnw, indent_guides=guides, max_length=ml, max_string=ms, expand_all=ea, margin=margin, insert_line=insert_line)
+    opts = dataclasses.replace(_console().options, max_width=cwid, min_width=cwid, justify=cj, overflow=co, no_wrap=cnw, encoding=enc)
+    calls = []
+    real = Text.with_indent_guides
+
+    def spy(self, indent_size=None, *, character="│", style="dim green"):
+        calls.append((self, indent_size, style))
+        return self  # the guides themselves are Text's business (indent_size=0 divides by zero there)
+
+    Text.with_indent_guides = spy
+    try:
+        parts = list(p.__rich_console__(_console(), opts))
+    except RecursionError:
+        return
+    finally:
+        Text.with_indent_guides = real
+    text = parts[-1]
+    blank = len(parts) == 2 and parts[0] == ""
+    inp = dict(value=_short(v), indent_size=ind, justify=pj, overflow=po, no_wrap=pnw, indent_guides=guides, expand_all=ea, margin=margin, insert_line=insert_line, width=cwid, options=(cj, co, cnw, enc))
+    rec.check(len(parts) in (1, 2) and (len(parts) == 1 or blank) and text.style == "pretty", "Pretty.__rich_console__:shape", inp, f"yielded {parts!r}")
+    if calls:
+        rec.check(len(calls) == 1 and calls[0][2] == "repr.indent", "Pretty.__rich_console__:guides", inp, f"with_indent_guides calls: {calls!r}")
+    g = str(calls[0][1]) if calls else "N"
+    ans = ";".join([enc_bool(blank), enc_str(text.plain), _enc_opt_str(text.justify), _enc_opt_str(text.overflow), enc_bool(bool(text.no_wrap)), g])
+    if type(text.no_wrap) is not bool:
+        rec.note("console:no_wrap-not-bool")
+    rec.case(
+        "pretty.console",
+        [DROP_SUFFIX, ARRAY_LITERAL, heap, root, enc_opt(ml), enc_opt(ms), table, ind, _enc_opt_str(pj), _enc_opt_str(po), _enc_opt_bool(pnw), enc_bool(guides), enc_bool(ea), margin, enc_bool(insert_line), cwid, _enc_opt_str(cj), _enc_opt_str(co), _enc_opt_bool(cnw), enc_bool(not enc.startswith("utf"))],
+        ans,
+        shape=("guides" if calls else "plain") + (":blank" if blank else ""),
+    )
+    # direct: the text is pretty_repr at width - margin with the Pretty's own options
+    from rich.pretty import pretty_repr
+
+    want = pretty_repr(v, max_width=cwid - margin, indent_size=ind, max_length=ml, max_string=ms, expand_all=ea)
+    want = "".join(ch for ch in want if ord(ch) not in (8, 11, 12, 13))  # Text.__init__ strips these
+    rec.check(text.plain == want, "Pretty.__rich_console__", inp, "Pretty does not pass its options to pretty_repr")
 
 
 def _depth(t):
@@ -284,9 +473,7 @@ def synth(rec, n_cases, tier_quick):
         rec.check("".join(toks) == str(node), "Node.__str__", en, "str is not the concatenation of the tokens")
         total = sum(cell_len(t) for t in toks)
         start = rng.randint(0, 12)
-        for mx in {start + total - 1, start + total, start + total + 1, rng.randint(0, 40)}:
-            if mx < 0:
-                continue
+        for mx in {start + total - 1, start + total, start + total + 1, rng.randint(-3, 40)}:
             got = node.check_length(start, mx)
             rec.check(got == (start + total <= mx) or not toks, "Node.check_length", (en, start, mx), f"check_length({start},{mx}) is {got} for a node of {total} cells")
             rec.case("pretty.check_length", [en, start, mx], enc_bool(got), shape="fit" if got else "nofit")
@@ -301,15 +488,13 @@ def synth(rec, n_cases, tier_quick):
         )
         el = L.enc_line(line)
         base = len(line.whitespace) + cell_len(line.text) + cell_len(line.suffix) + total
-        for mx in {base - 1, base, base + 1}:
-            if mx < 0:
-                continue
+        for mx in {base - 1, base, base + 1, -1}:
             try:
                 chk = enc_bool(line.check_length(mx))
             except AssertionError:
                 chk = "err:AssertionError"
             rec.case("pretty.line", [el, mx], f"{enc_bool(line.expandable)};{chk};{enc_str(str(line))}", shape="node" if line.node is not None else "text")
-        ind = rng.choice([0, 1, 2, 4])
+        ind = rng.choice([0, 1, 2, 4, -1])
         try:
             ex = list(line.expand(ind))
             ans = "/".join(L.enc_line(x) for x in ex)
@@ -318,7 +503,7 @@ def synth(rec, n_cases, tier_quick):
             okE = (
                 len(ex) == len(kids) + 2
                 and all(x.node is c for x, c in zip(ex[1:-1], kids))
-                and all(x.whitespace == line.whitespace + " " * ind for x in ex[1:-1])
+                and all(x.whitespace == line.whitespace + " " * max(ind, 0) for x in ex[1:-1])
                 and ex[0].whitespace == line.whitespace == ex[-1].whitespace
                 and ex[0].node is None
                 and ex[-1].node is None
@@ -331,7 +516,7 @@ def synth(rec, n_cases, tier_quick):
         # render of arbitrary trees
         ea = rng.random() < 0.2
         full = cell_len(str(node))
-        for w in {max(full - 1, 0), full, rng.randint(0, 30)}:
+        for w in {full - 1, full, rng.randint(-2, 30)}:
             out = pretty_repr(node, max_width=w, indent_size=ind, expand_all=ea)
             rec.case("pretty.render", [DROP_SUFFIX, en, w, ind, enc_bool(ea)], enc_str(out), shape=("wf" if wf else "raw") + (":multi" if "\n" in out else ":one"))
             if wf:
@@ -406,6 +591,11 @@ def work(task):
     elif kind == "cyc":
         for _ in range(arg):
             eval_value(rec, L.rand_cyclic(rec.rng), quick, 3, "cyc")
+    elif kind == "edge":
+        k, of = arg
+        for i, v in enumerate(L.edge_values()):
+            if i % of == k:
+                eval_value(rec, v, quick, 3 if quick else 6, "edge")
     elif kind == "fixed":
         for v in fixed_values():
             eval_value(rec, v, quick, 6, "fixed")
@@ -485,16 +675,19 @@ def run(ctx):
         "repr() of leaves (numbers, None, str/bytes incl. quoting and escapes) is Python's and enters the model as opaque token strings (str/bytes: the characters are in the model, repr of the printed prefix is supplied per case)",
         "eval() semantics (layout whitespace inside brackets, trailing commas) is Python's; checked per case by evaluating the real output",
         "container identity = id(); leaves have no identity in the model (they are never in _CONTAINERS)",
-        "max_width, indent_size, max_length, max_string are naturals in the model; negative values answer `unmodelled`",
+        "max_width, indent_size, max_length, max_string are integers in the model as in the code (negative max_length: ValueError from islice on a non-empty root; negative max_string: Python slice semantics); the statement is evaluated only for max_length, max_string >= 0",
+        "objects whose exact type is not in _CONTAINERS (subclasses of list/tuple/dict/str, namedtuples, dataclass instances, objects with any __repr__) are leaves: opaque repr strings; strings with lone surrogates answer `unmodelled` (not representable as Lean Char) and are evaluated directly only",
+        "Pretty.__rich_measure__/__rich_console__ are modelled on the traversed tree; Text.with_indent_guides, highlighting and Text wrapping are not (only that they are requested with the right arguments)",
         "the width function is rich.cells.cell_len over the generated CELL_WIDTHS table (property C13)",
     ]
     P = 14
     tasks = [("fixed", rng.getrandbits(32), quick, None)]
     tasks += [("exh", rng.getrandbits(32), quick, (k, P)) for k in range(P)]
     tasks += [("boundary", rng.getrandbits(32), quick, (k, P)) for k in range(P)]
-    tasks += [("rand", rng.getrandbits(32), quick, (150, 4 if quick else 6)) for _ in range(40 if quick else 560)]
-    tasks += [("cyc", rng.getrandbits(32), quick, 100) for _ in range(3 if quick else 50)]
-    tasks += [("synth", rng.getrandbits(32), quick, 450) for _ in range(8 if quick else 120)]
+    tasks += [("edge", rng.getrandbits(32), quick, (k, 4)) for k in range(4)]
+    tasks += [("rand", rng.getrandbits(32), quick, (150, 4 if quick else 6)) for _ in range(40 if quick else 260)]
+    tasks += [("cyc", rng.getrandbits(32), quick, 100) for _ in range(3 if quick else 30)]
+    tasks += [("synth", rng.getrandbits(32), quick, 450) for _ in range(8 if quick else 80)]
     tasks += [("glue", rng.getrandbits(32), quick, 150) for _ in range(1 if quick else 16)]
     with multiprocessing.get_context("fork").Pool(16) as pool:
         # ordered, lazily consumed: the verdict does not depend on worker timing
@@ -514,7 +707,10 @@ def run(ctx):
         "defaultdict/array/str/bytes/int/float/bool/None; cyclic and shared structures; hand-picked fragile shapes; "
         "for EVERY row of CELL_WIDTHS (read at run time) the first / last / interior code points and the neighbours just "
         "outside, as string items and dict keys, swept over every width within +-2 of each fit threshold; "
-        "each x option sets (indent_size, expand_all, max_length, max_string) x the widths at which some line's fit "
+        "objects at the edge of the domain (empty / multi-line / raising __repr__, list/tuple/dict/str subclasses, "
+        "namedtuple, dataclass, lone surrogates, deque(maxlen), nested default factories, arrays of all 13 typecodes, "
+        "huge ints, nan/inf/-0.0); each x option sets (indent_size, expand_all, max_length, max_string; one in 12 with a "
+        "negative option; max_width <= 0) x the widths at which some line's fit "
         "decision flips (+-1) and random widths up to %d; synthetic well-formed and ill-formed Node/_Line objects. "
         "distinct = distinct canonical requests" % ([1, "a", "あ", None], 4 if quick else 6, 60 if quick else 200)
     )
@@ -552,30 +748,41 @@ def replay(ctx, case):
 
 
 MANIFEST = {
-    "text": "Lean 4 theorems (Props/C16.lean; arbitrary width function, no bound on tree size, depth, width or indent) about an "
-    "executable model of rich/pretty.py (Node.iter_tokens/check_length/__str__, _Line.expandable/check_length/expand/__str__, "
-    "the Node.render loop, traverse over a heap of objects with identities, pretty_repr): the render loop terminates within "
-    "weight(node)+2 steps and equals a structural specification (open / one item per line at +indent / close, recursively); "
-    "layout_only: erasing indentation, line breaks and the blank after kept separators from the rendered lines gives exactly "
-    "the one-line form, so no comma/brace/key/leaf is lost or added (proved for the repaired variant, which /repo contains now; machine-checked "
-    "counter-example for rich 9.10.0 as found, before fix 376cec1: F24); one line iff leaf/empty or (not expand_all and the one-line form fits); every kept "
-    "container line fits max_width; expand_all leaves no container on one line; indentation is a whole multiple of indent_size "
-    "with braces aligned and contents strictly deeper; traverse is total on every well-formed heap including cyclic ones, emits "
-    "`...` exactly for containers on the current path, produces well-formed trees, and max_length/max_string abbreviations "
-    "show min(N,max) items/characters and report exactly N-max; F12 (empty array literal, repaired by fix e5d1b9a) as a machine-checked witness. "
-    "Tie: ~250k (quick; evidence/C16.json: 254k compared) / millions (thorough) generated cases per run compare model and rich.pretty character for character "
-    "(traverse on a heap description of the real object graph, Node.render, pretty_repr, and the Node/_Line methods on "
-    "synthetic also ill-formed objects); on every case the real output is eval()-ed and compared for deep typed equality, "
-    "compared with a statement-level reference printer up to the legal trailing comma, with repr() when it fits, and for "
-    "indentation regularity, at the widths where a fit decision flips (+-1).",
+    "text": "Lean 4 theorems (Props/C16.lean; arbitrary width function, no bound on tree size, depth, width or indent; "
+    "max_width and indent_size are integers as in the code) about an executable model of rich/pretty.py (Node.iter_tokens/"
+    "check_length/__str__, _Line.expandable/check_length/expand/__str__, the Node.render loop, traverse over a heap of objects "
+    "with identities, pretty_repr, Pretty.__rich_measure__ and the option plumbing of Pretty.__rich_console__): the render "
+    "loop terminates within weight(node)+2 steps and equals a structural specification (open / one item per line at +indent "
+    "/ close, recursively); layout_only: erasing indentation, line breaks and the blank after kept separators from the "
+    "rendered lines gives exactly the one-line form, so no comma/brace/key/leaf is lost or added (repaired variant; "
+    "machine-checked counter-example for the code as found: F24); one line iff leaf/empty or (not expand_all and the one-line "
+    "form fits); every kept container line fits max_width; expand_all — and any max_width <= 0 — leaves no container on one "
+    "line; indentation is a whole multiple of max(indent_size,0) with braces aligned and contents strictly deeper; traverse "
+    "is total on every well-formed heap including cyclic ones, emits `...` exactly for containers on the current path, "
+    "produces well-formed trees, and for max_length/max_string >= 0 abbreviations show min(N,max) items/characters and report "
+    "exactly N-max (negative max_length: ValueError exactly for a non-empty root container; negative max_string: what the "
+    "code prints is stated, it is not a count); the root's `last` flag is unobservable after fix 376cec1; "
+    "pretty_measure_sound: if __rich_measure__ reports m then rendering at width m has no line wider than m (for the variant "
+    "that passes expand_all; machine-checked counter-example for the code as it stands: F26); F12 witness. Tie: ~310k (quick) "
+    "/ millions (thorough) generated cases per run compare model and rich.pretty character for character (traverse on a heap "
+    "description of the real object graph, Node.render, pretty_repr, __rich_measure__, __rich_console__ attributes, and the "
+    "Node/_Line methods on synthetic also ill-formed objects, options inside and outside their documented domain); on every "
+    "in-domain case the real output is eval()-ed and compared for deep typed equality, compared with a statement-level "
+    "reference printer up to the legal trailing comma, with repr() when it fits, for indentation regularity and for "
+    "measure soundness on the real Pretty, at the widths where a fit decision flips (+-1; +-2 sweep for strings built from "
+    "the first/last/interior/outside code points of every CELL_WIDTHS row).",
     "note": "PARTIAL by nature: 'evaluates back' rests on Python's eval() and repr() of leaves, which are runtime and enter the "
     "model as opaque token strings (str/bytes: characters are modelled, repr of the printed prefix is supplied per case); this "
-    "part is validated per generated case, not proved. Trusted: Lean kernel; axioms propext/Classical.choice/Quot.sound; the "
-    "correspondence harness (heap/Node encoders, reference printer, deep equality); widths/indent/max_length/max_string are "
-    "naturals (negative values answer `unmodelled`); identities = id() of containers; the width function is the generated "
-    "CELL_WIDTHS table (C13). Not modelled: Pretty.__rich_measure__, install(), highlighting/indent guides (only that "
-    "Pretty.__rich_console__ and pprint pass their options to pretty_repr is checked). On rich 9.10.0 as found the check printed "
-    "VIOLATION for two genuine defects (F24, F12); both are repaired in /repo (fixes 376cec1, e5d1b9a = pending_fixes/C16-*.diff) and the two "
-    "CODE VARIANT FLAGS hold the repaired value 0.",
-    "design_ref": "DESIGN.md section 7, C16; section 8 F12, F24",
+    "part is validated per generated case, not proved. Scope of the eval round trip: built-in containers and literal leaves; "
+    "repr(nan)/repr(inf) are not literals (names nan/inf are supplied to eval), deque(maxlen=) loses maxlen (equal by ==), "
+    "non-evaluable default_factory, subclass/namedtuple/dataclass/custom-__repr__ leaves (exact type not in _CONTAINERS) are "
+    "checked for layout only; a mapping key whose repr is empty is dropped by the code (`if self.key_repr`) and is outside "
+    "the statement. Trusted: Lean kernel; axioms propext/Classical.choice/Quot.sound; the correspondence harness (heap/Node "
+    "encoders, reference printer, deep equality); identities = id() of containers; the width function is the generated "
+    "CELL_WIDTHS table (C13); strings with lone surrogates answer `unmodelled`. pretty_measure_sound assumes blanks are one "
+    "cell wide, margin = 0 and no leaf repr containing a line boundary; a leaf with empty repr makes __rich_measure__ raise "
+    "ValueError (modelled, stated). Not modelled: install(), highlighting, Text.with_indent_guides itself (only that it is "
+    "requested with indent_size and style repr.indent), Text wrapping/cropping. With today's code the check prints VIOLATION "
+    "for F26 until pending_fixes/C16-measure-ignores-expand-all.diff is applied and MEASURE_NO_EXPAND_ALL set to 0.",
+    "design_ref": "DESIGN.md section 7, C16 (and the Pretty clause of C09); section 8 F12, F24; F26 new",
 }
